@@ -370,7 +370,7 @@ def run(ck, tier, rng):
                              {"theorem_or_correspondence": "correspondence Xmlchemy.v ~ oxml/xmlchemy.py (insert_before/get_or_add/remove_all)",
                               "input": {"class": m["cls"], "op": op, "child": m["child"], "children": ctx},
                               "model_outcome": mo, "impl_outcome": got}, concrete=False)
-    any_concrete = any(v["concrete"] for v in ck.violations) or bool(ck.known_hits)
+    any_concrete = any(v["concrete"] for v in ck.violations)
     ck.broken_build(oracle_found_concrete=any_concrete)
     return ck.finish(
         rule="complete enumeration of the property's grid: every (registered class, XSD type, declared child) x {empty, each single other permitted child, all later, all earlier, all permitted, two-kind orderings of repeatable mixed groups} x {_insert_x, get_or_add_x, _remove_x}; non-trivial = context holds a tag other than the inserted one",
